@@ -131,7 +131,20 @@ func Average(v reflect.Value) (float64, error) {
 	}
 
 	if math.IsInf(sum, 0) {
-		return 0, fmt.Errorf("the average function has resulted in a value that cannot be represented as a JSON number")
+
+		// The total is out of range but the mean need not
+		// be: add up the members' shares of it instead.
+		mean := 0.0
+		for i, N := 0, float64(v.Len()); i < v.Len(); i++ {
+			n, _ := jtypes.AsNumber(v.Index(i))
+			mean += n / N
+		}
+
+		if math.IsInf(mean, 0) || math.IsNaN(mean) {
+			return 0, fmt.Errorf("the average function has resulted in a value that cannot be represented as a JSON number")
+		}
+
+		return mean, nil
 	}
 
 	return sum / float64(v.Len()), nil
